@@ -60,6 +60,31 @@ def ddmin_list(case, getlist, setlist, test, keep_prefix=0):
     return changed
 
 
+def structurally_nonsingular(mat):
+    """Perfect matching of columns to rows (augmenting paths): shrinking must not drift into structurally singular matrices,
+    which trigger legitimate singular returns and would be mistaken for the violation being minimised."""
+    n, m = mat["n"], mat["m"]
+    colptr, rowind = mat["colptr"], mat["rowind"]
+    match_row = [-1] * m
+
+    def try_col(j, seen):
+        for p in range(colptr[j], colptr[j + 1]):
+            r = rowind[p]
+            if seen[r]:
+                continue
+            seen[r] = True
+            if match_row[r] < 0 or try_col(match_row[r], seen):
+                match_row[r] = j
+                return True
+        return False
+    import sys
+    sys.setrecursionlimit(10000)
+    for j in range(n):
+        if not try_col(j, [False] * m):
+            return False
+    return True
+
+
 def delete_rowcol(mat, k, ops):
     """Delete row k and column k of a square matrix (CSC) and the matching entries of per-op value arrays."""
     n, m = mat["n"], mat["m"]
@@ -164,7 +189,7 @@ def minimise(exe, path, key, run_replay, budget_s=90, log=lambda *a: None):
                         if not budget.ok():
                             break
                         r = delete_rowcol(case["tasks"][ti]["mats"][mi], k, case["tasks"][ti]["ops"])
-                        if not r:
+                        if not r or not structurally_nonsingular(r[0]):
                             continue
                         cand = copy.deepcopy(case)
                         cand["tasks"][ti]["mats"][mi], cand["tasks"][ti]["ops"] = r
@@ -176,7 +201,7 @@ def minimise(exe, path, key, run_replay, budget_s=90, log=lambda *a: None):
                 p = len(case["tasks"][ti]["mats"][mi]["rowind"]) - 1
                 while p >= 0 and budget.ok():
                     r = delete_entry(case["tasks"][ti]["mats"][mi], p, case["tasks"][ti]["ops"])
-                    if r:
+                    if r and structurally_nonsingular(r[0]):
                         cand = copy.deepcopy(case)
                         cand["tasks"][ti]["mats"][mi], cand["tasks"][ti]["ops"] = r
                         if test(cand):
